@@ -156,3 +156,16 @@ contract(
     params={"data": P.bytes(len=16), "rest": P.bytes()}, setup=[f"T = {UDT_P}", "buffer = io.BytesIO(data + rest)"],
     ensures=["result == [{'a': spec.cip_codec.decode_int('DINT', data[8 * i:8 * i + 4]), 'b': spec.cip_codec.decode_int('SINT', data[8 * i + 4:8 * i + 5])} for i in range(2)]",
              "buffer.read() == rest"], props=["C01", "C07", "C06"])
+
+# a structure that does not start the buffer (element 1.. of an array of structures, a nested structure): BOOL members come from
+# THIS structure's host bytes
+contract(
+    id="structtag.decode.at_offset", func=CT + "StructTag.<locals>.StructTag._decode", call="T.decode(buffer)",
+    params={"before": P.bytes(minlen=1, maxlen=40), "data": P.bytes(len=16), "rest": P.bytes()},
+    setup=[f"T = {UDT}", "buffer = io.BytesIO(before + data + rest)", "junk = buffer.read(len(before))"],
+    ensures=[f"same(result, spec.logix.udt_view({LAYOUT}, {{'__host'}}, data))", "buffer.read() == rest"], props=["C01", "C07", "C06"])
+contract(
+    id="structtag.decode.array", func="pycomm3.cip.data_types.Array.<locals>.Array.decode", call="pycomm3.cip.data_types.Array(2, T).decode(buffer)",
+    params={"d0": P.bytes(len=16), "d1": P.bytes(len=16), "rest": P.bytes()}, setup=[f"T = {UDT}", "buffer = io.BytesIO(d0 + d1 + rest)"],
+    ensures=[f"same(result, [spec.logix.udt_view({LAYOUT}, {{'__host'}}, d0), spec.logix.udt_view({LAYOUT}, {{'__host'}}, d1)])", "buffer.read() == rest"],
+    props=["C01", "C07", "C06"])
